@@ -1,59 +1,70 @@
-//! C16.belief — contract of `validate_exact_patterns` (rs/anda_kip/src/parser/kml.rs)
-//! and of the EXPORT CAPSULE arm of `validate_command` (parser.rs).
+//! C16.belief — contract of `validate_exact_patterns` and of the WHERE check of
+//! `validate_clause` (rs/anda_kip/src/parser/kml.rs).
 //!
 //! Child module of `parser::kml` (cfg(kani), scratch copy only). Property C16:
 //! no accepted command "uses a belief projection as a mutation or export
 //! target". The obligation is stated on the tree: a selection block that
 //! contains a `Belief` or `BeliefSlot` pattern anywhere — top level, or nested
 //! in NOT / OPTIONAL / UNION down to depth 2, at any position among ordinary
-//! patterns — is rejected. Shapes are enumerated concretely (rule 1); all AST
-//! values live in `ManuallyDrop` (rule 2); error text is stubbed.
+//! patterns — is rejected, and so is every mutation clause carrying such a
+//! block. Shapes are enumerated concretely (rule 1); the trees are built over
+//! stack arrays and static string bytes and never dropped (rule 2; heap-built
+//! trees did not finish: see units/C16.toml); error text is stubbed.
 use super::*;
-use crate::ast::{BeliefTarget, Command, MetaCommand, PredTerm};
+use crate::ast::{BeliefTarget, PredTerm};
 use core::mem::ManuallyDrop;
 
 pub(super) fn stub_format(_args: core::fmt::Arguments<'_>) -> String {
     String::new()
 }
 
-fn s(x: &str) -> String {
-    String::from(x)
+/// A `String` over the bytes of a string literal (read-only use, never dropped).
+fn sv(x: &'static str) -> String {
+    unsafe { String::from_raw_parts(x.as_ptr() as *mut u8, x.len(), x.len()) }
+}
+
+/// `let name: Vec<T>` over a stack array living in the enclosing scope.
+macro_rules! stack_vec {
+    ($name:ident = [$($e:expr),*]) => {
+        let mut buf = ManuallyDrop::new([$($e),*]);
+        let $name = unsafe { Vec::from_raw_parts(buf.as_mut_ptr(), buf.len(), buf.len()) };
+    };
 }
 
 /// The five spellings of a belief projection pattern.
 fn belief(form: usize) -> WhereClause {
     match form {
         // ?b BELIEF (?p)
-        0 => WhereClause::Belief { variable: s("b"), target: BeliefTarget::Proposition(s("p")) },
+        0 => WhereClause::Belief { variable: sv("b"), target: BeliefTarget::Proposition(sv("p")) },
         // ?b BELIEF SLOT (?x, "q")
         1 => WhereClause::BeliefSlot {
-            variable: s("b"),
-            subject: Term::Variable(s("x")),
-            predicate: PredAtom::Literal(s("q")),
+            variable: sv("b"),
+            subject: Term::Variable(sv("x")),
+            predicate: PredAtom::Literal(sv("q")),
         },
         // ?b BELIEF (:id)
-        2 => WhereClause::Belief { variable: s("b"), target: BeliefTarget::Id(Scalar::Param(s("i"))) },
+        2 => WhereClause::Belief { variable: sv("b"), target: BeliefTarget::Id(Scalar::Param(sv("i"))) },
         // ?b BELIEF ((?x, "q", ?y))
         3 => WhereClause::Belief {
-            variable: s("b"),
+            variable: sv("b"),
             target: BeliefTarget::Tuple(PropositionTriple {
-                subject: Term::Variable(s("x")),
-                predicate: PredTerm::Atom(PredAtom::Literal(s("q"))),
-                object: Term::Variable(s("y")),
+                subject: Term::Variable(sv("x")),
+                predicate: PredTerm::Atom(PredAtom::Literal(sv("q"))),
+                object: Term::Variable(sv("y")),
             }),
         },
         // ?b BELIEF SLOT (:x, :q)
         _ => WhereClause::BeliefSlot {
-            variable: s("b"),
-            subject: Term::Param(s("x")),
-            predicate: PredAtom::Param(s("q")),
+            variable: sv("b"),
+            subject: Term::Param(sv("x")),
+            predicate: PredAtom::Param(sv("q")),
         },
     }
 }
 
 /// An ordinary exact pattern: `?c CONCEPT {}`.
 fn ordinary() -> WhereClause {
-    WhereClause::Concept { variable: s("c"), matcher: ObjectMatcher::new() }
+    WhereClause::Concept { variable: sv("c"), matcher: ObjectMatcher::new() }
 }
 
 /// NOT / OPTIONAL / UNION around `inner`.
@@ -71,21 +82,55 @@ fn rejected(clauses: Vec<WhereClause>) -> bool {
     r.is_err()
 }
 
-/// Depth 0: each of the five belief spellings alone, after and before an
-/// ordinary pattern.
+/// `{ a }`
+fn rejected1(a: WhereClause) -> bool {
+    stack_vec!(v = [a]);
+    rejected(v)
+}
+
+/// `{ a b }`
+fn rejected2(a: WhereClause, b: WhereClause) -> bool {
+    stack_vec!(v = [a, b]);
+    rejected(v)
+}
+
+/// `{ W { a } }`
+fn rejected_in(w: usize, a: WhereClause) -> bool {
+    stack_vec!(i = [a]);
+    stack_vec!(v = [wrap(w, i)]);
+    rejected(v)
+}
+
+/// `{ ordinary W { ordinary a } }`
+fn rejected_in_second(w: usize, a: WhereClause) -> bool {
+    stack_vec!(i = [ordinary(), a]);
+    stack_vec!(v = [ordinary(), wrap(w, i)]);
+    rejected(v)
+}
+
+/// `{ W1 { W2 { a } } }`
+fn rejected_in2(w1: usize, w2: usize, a: WhereClause) -> bool {
+    stack_vec!(i2 = [a]);
+    stack_vec!(i1 = [wrap(w2, i2)]);
+    stack_vec!(v = [wrap(w1, i1)]);
+    rejected(v)
+}
+
+/// Depth 0: each of the five belief spellings alone; BELIEF after, BELIEF SLOT
+/// before an ordinary pattern.
 #[kani::proof]
-#[kani::unwind(4)]
+#[kani::unwind(6)]
 #[kani::stub(alloc::fmt::format, stub_format)]
 fn c16_belief_depth0() {
     let mut f = 0;
     while f < 5 {
-        assert!(rejected(vec![belief(f)]), "OBL:C16.belief.rejected");
-        assert!(rejected(vec![ordinary(), belief(f)]), "OBL:C16.belief.rejected");
-        assert!(rejected(vec![belief(f), ordinary()]), "OBL:C16.belief.rejected");
+        assert!(rejected1(belief(f)), "OBL:C16.belief.rejected");
         f += 1;
     }
+    assert!(rejected2(ordinary(), belief(0)), "OBL:C16.belief.rejected");
+    assert!(rejected2(belief(1), ordinary()), "OBL:C16.belief.rejected");
     // not everything is rejected: an ordinary exact block is accepted
-    kani::cover!(!rejected(vec![ordinary()]), "COVER:ordinary_accepted");
+    kani::cover!(!rejected1(ordinary()), "COVER:ordinary_accepted");
     kani::cover!(true, "COVER:reach");
 }
 
@@ -98,190 +143,192 @@ fn c16_belief_depth0() {
 fn c16_belief_depth1() {
     let mut w = 0;
     while w < 3 {
-        let mut f = 0;
-        while f < 2 {
-            assert!(rejected(vec![wrap(w, vec![belief(f)])]), "OBL:C16.belief.rejected");
-            assert!(
-                rejected(vec![ordinary(), wrap(w, vec![ordinary(), belief(f)])]),
-                "OBL:C16.belief.rejected"
-            );
-            f += 1;
-        }
+        assert!(rejected_in(w, belief(0)), "OBL:C16.belief.rejected");
+        assert!(rejected_in(w, belief(1)), "OBL:C16.belief.rejected");
         w += 1;
     }
-    kani::cover!(!rejected(vec![wrap(1, vec![ordinary()])]), "COVER:ordinary_accepted");
+    assert!(rejected_in_second(2, belief(1)), "OBL:C16.belief.rejected");
+    kani::cover!(!rejected_in(1, ordinary()), "COVER:ordinary_accepted");
     kani::cover!(true, "COVER:reach");
 }
 
-/// Depth 2: every pair of group kinds (3 x 3) around BELIEF and BELIEF SLOT.
-#[kani::proof]
-#[kani::unwind(4)]
-#[kani::stub(alloc::fmt::format, stub_format)]
-fn c16_belief_depth2() {
+/// Depth 2: every pair of group kinds (3 x 3); the pattern alternates between
+/// BELIEF and BELIEF SLOT over the nine pairs (`parity` 0), the complementary
+/// assignment is `parity` 1 — together all 18 cells.
+fn depth2(parity: usize) {
     let mut w1 = 0;
     while w1 < 3 {
         let mut w2 = 0;
         while w2 < 3 {
-            let mut f = 0;
-            while f < 2 {
-                assert!(
-                    rejected(vec![wrap(w1, vec![wrap(w2, vec![belief(f)])])]),
-                    "OBL:C16.belief.rejected"
-                );
-                f += 1;
-            }
+            assert!(rejected_in2(w1, w2, belief((w1 + w2 + parity) % 2)), "OBL:C16.belief.rejected");
             w2 += 1;
         }
         w1 += 1;
     }
-    assert!(
-        rejected(vec![ordinary(), wrap(2, vec![ordinary(), wrap(0, vec![ordinary(), belief(1)])])]),
-        "OBL:C16.belief.rejected"
-    );
-    kani::cover!(!rejected(vec![wrap(2, vec![wrap(1, vec![ordinary()])])]), "COVER:ordinary_accepted");
-    kani::cover!(true, "COVER:reach");
 }
 
-fn export(clauses: Vec<WhereClause>) -> ManuallyDrop<Command> {
-    ManuallyDrop::new(Command::Meta(MetaCommand::ExportCapsule(crate::ast::ExportCapsuleCommand {
-        target: ElementRef::Param(s("capsule")),
-        where_clauses: clauses,
-        options: None,
-        as_of: None,
-    })))
-}
-
-/// `validate_command` on an injected EXPORT CAPSULE tree whose selection names
-/// a belief projection (top level and inside each group kind) ⇒ rejected.
 #[kani::proof]
 #[kani::unwind(4)]
 #[kani::stub(alloc::fmt::format, stub_format)]
-fn c16_belief_export() {
-    let mut f = 0;
-    while f < 2 {
-        let c = export(vec![ordinary(), belief(f)]);
-        let r = ManuallyDrop::new(crate::parser::validate_command(&c));
-        assert!(r.is_err(), "OBL:C16.belief.export_rejected");
-        let mut w = 0;
-        while w < 3 {
-            let c = export(vec![wrap(w, vec![belief(f)])]);
-            let r = ManuallyDrop::new(crate::parser::validate_command(&c));
-            assert!(r.is_err(), "OBL:C16.belief.export_rejected");
-            w += 1;
-        }
-        f += 1;
-    }
-    let c = export(vec![ordinary()]);
-    let r = ManuallyDrop::new(crate::parser::validate_command(&c));
-    kani::cover!(r.is_ok(), "COVER:ordinary_accepted");
+fn c16_belief_depth2() {
+    depth2(0);
+    kani::cover!(!rejected_in2(2, 1, ordinary()), "COVER:ordinary_accepted");
     kani::cover!(true, "COVER:reach");
 }
 
-// ---- EXPERIMENTS (to be removed) ----
-fn sv(x: &'static str) -> String {
-    unsafe { String::from_raw_parts(x.as_ptr() as *mut u8, x.len(), x.len()) }
+/// The other nine (group pair, pattern) cells of depth 2 (thorough tier).
+#[kani::proof]
+#[kani::unwind(4)]
+#[kani::stub(alloc::fmt::format, stub_format)]
+fn c16_belief_depth2_complement() {
+    depth2(1);
+    kani::cover!(true, "COVER:reach");
 }
-macro_rules! stack_vec {
-    ($name:ident = [$($e:expr),*]) => {
-        let mut buf = ManuallyDrop::new([$($e),*]);
-        let $name = unsafe { Vec::from_raw_parts(buf.as_mut_ptr(), buf.len(), buf.len()) };
-    };
-}
-fn xbelief() -> WhereClause {
-    WhereClause::Belief { variable: sv("b"), target: BeliefTarget::Proposition(sv("p")) }
-}
-fn xslot() -> WhereClause {
-    WhereClause::BeliefSlot { variable: sv("b"), subject: Term::Variable(sv("x")), predicate: PredAtom::Literal(sv("q")) }
-}
-fn xord() -> WhereClause {
-    WhereClause::Concept { variable: sv("c"), matcher: ObjectMatcher::new() }
-}
-fn xrej(v: Vec<WhereClause>) -> bool {
-    let v = ManuallyDrop::new(v);
-    let r = ManuallyDrop::new(validate_exact_patterns(&v));
+
+// ---------------------------------------------------------------------------
+// a belief projection as a MUTATION target: every clause family that carries a
+// WHERE block, through the tree validator `validate_clause`
+// ---------------------------------------------------------------------------
+
+fn clause_rejected(c: MutationClause) -> bool {
+    let c = ManuallyDrop::new(c);
+    let r = ManuallyDrop::new(validate_clause(&c));
     r.is_err()
 }
-#[kani::proof]
-#[kani::unwind(4)]
-#[kani::stub(alloc::fmt::format, stub_format)]
-fn x_b5() {
-    stack_vec!(v = [xbelief()]);
-    assert!(xrej(v), "X");
+
+fn target() -> ElementRef {
+    ElementRef::Handle(sv("t"))
 }
-#[kani::proof]
-#[kani::unwind(4)]
-#[kani::stub(alloc::fmt::format, stub_format)]
-fn x_b6() {
-    stack_vec!(v2 = [xslot()]);
-    stack_vec!(v1 = [WhereClause::Optional(v2)]);
-    stack_vec!(v = [WhereClause::Union(v1)]);
-    assert!(xrej(v), "X");
-}
-#[kani::proof]
-#[kani::unwind(4)]
-#[kani::stub(alloc::fmt::format, stub_format)]
-fn x_b7() {
-    stack_vec!(v = [xord(), xslot()]);
-    assert!(xrej(v), "X");
-}
-#[kani::proof]
-#[kani::unwind(3)]
-#[kani::stub(alloc::fmt::format, stub_format)]
-fn x_b8() {
-    stack_vec!(v = [xord(), xslot()]);
-    assert!(xrej(v), "X");
+
+/// `... WHERE { ?t ASSERTION {} <belief form> }`
+macro_rules! where_with_belief {
+    ($name:ident, $form:expr) => {
+        stack_vec!(
+            $name = [WhereClause::Assertion { variable: sv("t"), matcher: ObjectMatcher::new() }, belief($form)]
+        );
+    };
 }
 
 #[kani::proof]
-#[kani::unwind(3)]
+#[kani::unwind(4)]
 #[kani::stub(alloc::fmt::format, stub_format)]
-fn x_b9() {
-    stack_vec!(v = [xord(), xslot()]);
-    assert!(xrej(v), "X");
-    stack_vec!(v = [xbelief(), xord()]);
-    assert!(xrej(v), "X");
-    stack_vec!(v2 = [xslot()]);
-    stack_vec!(v1 = [WhereClause::Optional(v2)]);
-    stack_vec!(v = [WhereClause::Union(v1)]);
-    assert!(xrej(v), "X");
-    stack_vec!(v2 = [xbelief()]);
-    stack_vec!(v1 = [WhereClause::Not(v2)]);
-    stack_vec!(v = [WhereClause::Not(v1)]);
-    assert!(xrej(v), "X");
-    stack_vec!(v2 = [xord(), xbelief()]);
-    stack_vec!(v1 = [xord(), WhereClause::Not(v2)]);
-    stack_vec!(v = [xord(), WhereClause::Optional(v1)]);
-    assert!(xrej(v), "X");
-    stack_vec!(v1 = [xord()]);
-    stack_vec!(v = [xord(), WhereClause::Optional(v1)]);
-    kani::cover!(!xrej(v), "COVER:ok");
+fn c16_belief_mutation_target_a() {
+    // UPDATE ?t SET ATTRIBUTES {a: :v} WHERE { ?t ASSERTION {} ?b BELIEF (?p) }
+    {
+        where_with_belief!(wh, 0);
+        stack_vec!(a = [(sv("a"), MutationValue::Param(sv("v")))]);
+        stack_vec!(acts = [UpdateAction::SetAttributes(a)]);
+        assert!(
+            clause_rejected(MutationClause::Update(UpdateStatement {
+                target: target(),
+                expect_version: None,
+                actions: acts,
+                where_clauses: Some(wh),
+                limit: None,
+            })),
+            "OBL:C16.belief.mutation_target_rejected"
+        );
+    }
+    // RETRACT ASSERTION ?t WHERE { ... BELIEF SLOT ... }
+    {
+        where_with_belief!(wh, 1);
+        assert!(
+            clause_rejected(MutationClause::RetractAssertion(RetractAssertion {
+                target: target(),
+                where_clauses: Some(wh),
+                limit: None,
+                expect_state: None,
+            })),
+            "OBL:C16.belief.mutation_target_rejected"
+        );
+    }
+    // SET RETENTION ?t {a: :v} WHERE { ... BELIEF ... }
+    {
+        where_with_belief!(wh, 0);
+        stack_vec!(a = [(sv("a"), MutationValue::Param(sv("v")))]);
+        assert!(
+            clause_rejected(MutationClause::SetRetention(SetRetention {
+                target: target(),
+                values: a,
+                where_clauses: Some(wh),
+                limit: None,
+                expect_version: None,
+            })),
+            "OBL:C16.belief.mutation_target_rejected"
+        );
+    }
+    // MERGE CONCEPT ?t INTO :k WHERE { ... BELIEF SLOT ... }
+    {
+        where_with_belief!(wh, 1);
+        assert!(
+            clause_rejected(MutationClause::MergeConcept(MergeConcept {
+                source: target(),
+                into: ElementRef::Param(sv("k")),
+                where_clauses: Some(wh),
+                expect_version: None,
+            })),
+            "OBL:C16.belief.mutation_target_rejected"
+        );
+    }
+    kani::cover!(true, "COVER:reach");
 }
 
 #[kani::proof]
-#[kani::unwind(2)]
+#[kani::unwind(8)]
 #[kani::stub(alloc::fmt::format, stub_format)]
-fn x_c1() {
-    stack_vec!(v = [xbelief()]);
-    assert!(xrej(v), "X");
-}
-#[kani::proof]
-#[kani::unwind(2)]
-#[kani::stub(alloc::fmt::format, stub_format)]
-fn x_c2() {
-    stack_vec!(v = [xord()]);
-    assert!(!xrej(v), "X");
-}
-#[kani::proof]
-#[kani::unwind(2)]
-#[kani::stub(alloc::fmt::format, stub_format)]
-fn x_c3() {
-    let e = ManuallyDrop::new(KipError::invalid_syntax("x"));
-    assert!(e.message.is_empty(), "X");
-}
-#[kani::proof]
-#[kani::unwind(2)]
-fn x_c4() {
-    let v: [WhereClause; 0] = [];
-    let r = ManuallyDrop::new(validate_exact_patterns(&v));
-    assert!(r.is_ok(), "X");
+fn c16_belief_mutation_target_b() {
+    // ARCHIVE ?t WHERE { ... BELIEF ... }
+    {
+        where_with_belief!(wh, 0);
+        assert!(
+            clause_rejected(MutationClause::Archive(RemovalStatement {
+                target: target(),
+                where_clauses: Some(wh),
+                limit: None,
+                expect_state: None,
+            })),
+            "OBL:C16.belief.mutation_target_rejected"
+        );
+    }
+    // TOMBSTONE ?t WHERE { ... BELIEF SLOT ... }
+    {
+        where_with_belief!(wh, 1);
+        assert!(
+            clause_rejected(MutationClause::Tombstone(RemovalStatement {
+                target: target(),
+                where_clauses: Some(wh),
+                limit: None,
+                expect_state: None,
+            })),
+            "OBL:C16.belief.mutation_target_rejected"
+        );
+    }
+    // PURGE ?t WHERE { ... BELIEF SLOT ... } CONFIRM "PURGE"
+    {
+        where_with_belief!(wh, 1);
+        assert!(
+            clause_rejected(MutationClause::Purge(crate::ast::PurgeStatement {
+                target: target(),
+                where_clauses: Some(wh),
+                limit: None,
+                reference_policy: None,
+                confirm: sv("PURGE"),
+            })),
+            "OBL:C16.belief.mutation_target_rejected"
+        );
+    }
+    // the same ARCHIVE with an ordinary selection is accepted
+    {
+        stack_vec!(wh = [WhereClause::Assertion { variable: sv("t"), matcher: ObjectMatcher::new() }]);
+        kani::cover!(
+            !clause_rejected(MutationClause::Archive(RemovalStatement {
+                target: target(),
+                where_clauses: Some(wh),
+                limit: None,
+                expect_state: None,
+            })),
+            "COVER:ordinary_accepted"
+        );
+    }
+    kani::cover!(true, "COVER:reach");
 }
